@@ -779,6 +779,10 @@ def build_cases(tier="quick"):
     from contracts.common import rewrap
 
     extra += rewrap(PROP, c10.setup_selection_cases(), "timeout-is-not-unsat")
+    # the second job of a path (the refined query) runs on the executor that a shutdown request reaches (C11's unit)
+    from contracts import c11
+
+    extra += rewrap(PROP, c11.refine_ctx_cases(), "refined-job-on-the-registered-executor")
     return run_cases() + run_vs_cancel_cases() + cancel_cases() + submit_vs_shutdown_cases() + join_cases() + extra
 
 
